@@ -13,7 +13,7 @@ RULE = ('generated models (1-3 signatures; tensor names with "_" or ";" separato
         'rules containing at least one static-range rule, regexes from the full family (.*, substring, prefix, ^name, '
         'name$, ^name$, "name;", alternation) x selectors x configs; calibrate() per signature chained through '
         'previous_calibration_result, then quantize().  Monitors: resolution trace compared per (operator, scope) between '
-        'the two phases; boundary oracle on exceptions and on calibration keys vs operators changed in the output.  '
+        'the two phases; boundary oracle on exceptions and on calibration keys vs operators the reference resolver selects.  '
         'distinct by (graph structure, recipe); non-trivial iff the recipe selected >=1 operator in some phase')
 ASSUMPTIONS = ['scopes are compared with the ";" separators stripped (both encodings concatenate the same names in the same order)']
 TT = models.TT
@@ -42,22 +42,26 @@ def pick_rules(rng, src):
   return rules
 
 
-def boundary_selected(src, mo, maps):
-  """Per subgraph: set of tensor indices (source numbering) adjacent to an operator that the output shows as selected."""
+def reference_selected(src, acc):
+  """Per subgraph: tensor indices adjacent to an operator the reference resolver selects
+  (scope = output names each followed by ';', the documented encoding)."""
+  from vf.oracle import resolve
+  ref = recipes.reference_for([a[:3] for a in acc])
   out = []
-  for si, (a, b) in enumerate(zip(src.subgraphs, mo.subgraphs)):
-    mp = maps[si]
+  for sg in src.subgraphs:
     touched = set()
-    changed = lambda t0, t1: (a.tensors[t0].type != b.tensors[t1].type) or t1 != t0
-    for k, oa in enumerate(a.operators):
-      ob = b.operators[mp.kept[k]]
-      pairs = [(int(x), int(y)) for x, y in zip(list(oa.inputs) + list(oa.outputs), list(ob.inputs) + list(ob.outputs)) if int(x) >= 0]
-      if any(changed(x, y) for x, y in pairs):
-        touched.update(x for x, _ in pairs)
-    # the virtual INPUT / OUTPUT operators: selected iff one of their tensors changed dtype
-    for la, lb in ((a.inputs, b.inputs), (a.outputs, b.outputs)):
-      if any(a.tensors[int(x)].type != b.tensors[int(y)].type for x, y in zip(la, lb)):
-        touched.update(int(x) for x in la)
+    nm = lambda t: sg.tensors[int(t)].name.decode()
+    for op in sg.operators:
+      c = src.operatorCodes[op.opcodeIndex].builtinCode
+      if c not in models.SUPPORTED_CODES:
+        continue
+      alg, _, _ = ref.resolve(models.SUPPORTED_CODES[c], resolve.op_scope([nm(o) for o in op.outputs if int(o) >= 0]))
+      if alg != resolve.NOQ:
+        touched.update(int(t) for t in list(op.inputs) + list(op.outputs) if int(t) >= 0)
+    if ref.resolve('INPUT', resolve.op_scope([nm(t) for t in sg.inputs]))[0] != resolve.NOQ:
+      touched.update(int(t) for t in sg.inputs)
+    if ref.resolve('OUTPUT', resolve.op_scope([]))[0] != resolve.NOQ:
+      touched.update(int(t) for t in sg.outputs)
     out.append(touched)
   return out
 
@@ -134,11 +138,10 @@ def run_case(ctx, case, rng):
         ctx.violation('phases_disagree_on_operator',
                       dict(feats, honoured_by='calibration_only' if dec['calibrate'][k] else 'quantization_only'),
                       dict(detail, operator=k[0], scope=k[1], n_disagreements=len(dis)))
-    # ---- boundary oracle: calibration keys vs operators changed in the output
-    if out is not None:
-      errs, maps, ms, mo = skeleton.analyse(spec.content, out, ms=src)
-      if maps is not None and all(m is not None for m in maps):
-        touched = boundary_selected(src, mo, maps)
+    # ---- boundary oracle: calibration keys vs operators the reference resolver selects
+    if cal is not None:
+      if True:
+        touched = reference_selected(src, acc)
         name2 = {}
         for si, sg in enumerate(src.subgraphs):
           for ti, t in enumerate(sg.tensors):
@@ -146,7 +149,7 @@ def run_case(ctx, case, rng):
         stale = [k for k in cal if k in name2 and name2[k][1] not in touched[name2[k][0]]]
         ctx.count('calibration_keys_checked', len(cal))
         if stale:
-          ctx.violation('calibrated_tensor_adjacent_to_no_quantized_operator', feats,
+          ctx.violation('calibrated_tensor_adjacent_to_no_selected_operator', feats,
                         dict(detail, n_stale=len(stale), example=stale[:3]))
         if any(touched):
           selected_any = True
